@@ -4,7 +4,8 @@ their checks, resolution of qubit / classical arguments, the measure / reset / b
 separators) are equal to the hand-written MODEL (`Qvnt.Interp`, `Model/Interp.lean`) the theorems of
 C10 / C11 / C13 / C17 / C18 are about. The translated functions work on the model's own record `Interp R`.
 -/
-import Qvnt.Lemmas.GenRegs2
+import Qvnt.Lemmas.GenExtOp
+import Qvnt.Lemmas.GenBits
 
 set_option linter.unusedSectionVars false
 
